@@ -32,6 +32,17 @@ CLAIMED = {
             'projection of catalogs to event identities, exact recovery of integer bin sums from mean rates, the '
             'observation wrapper (adds logging around the unchanged method in the harness process).',
             '5/C13'),
+    'C09': ('TLA+ spec of the definition and of the library computation (sorted sample, searchsorted on the reversed '
+            'ecdf, short-circuits); TLC proves them equal on every multiset of size <= 7 over 6 letters x 13 queries; '
+            'all cases replayed into the real functions; rank-histogram traces of large samples validated by TLC',
+            'The exhaustive set named in the property (1 715 multisets x 13 queries = 22 295 states) is enumerated by '
+            'TLC, which checks ImplMatchesSpec, SumIdentity, Bounds and Monotone; each multiset is then evaluated by the '
+            'real greater_equal_ecdf / less_equal_ecdf / get_quantiles in 4-6 value maps (ints, floats, negatives, '
+            'adjacent doubles, 1e15) and three container types with bit-exact comparison against count/n; random samples '
+            'of up to 1e5 values with heavy ties are projected to rank histograms and checked by TLC.',
+            'Trusted: the exact recovery of the integer numerator from the returned float (k/n == value) and the value '
+            'maps in vh/drivers/c09.py.',
+            '5/C09'),
 }
 
 NOT_YET = 'check not built yet in this round (specification planned in DESIGN.md section 5); not claimed until it exists'
